@@ -11,14 +11,13 @@ def isLangTok (t : Tok) : Bool := match t.kind with | .lang .. => true | _ => fa
 def allParts (p : Parts) : List (Str × List Nat) := (p.map (·.2)).flatten
 
 /-- reference language stack (10-line specification of the sectioning fold):
-    push / pop-if-more-than-one / replace-top; tokens naming the current top are ignored -/
+    push / pop-if-more-than-one / replace-top -/
 def langAt : List Str → List Tok → List Str
   | st, [] => st
   | st, t :: ts =>
     match t.kind with
     | .lang l back hard _ =>
-      if l == stackTop st then langAt st ts
-      else if back then langAt (if st.length > 1 then st.tail else st) ts
+      if back then langAt (if st.length > 1 then st.tail else st) ts
       else if hard then langAt (l :: st.tail) ts
       else langAt (l :: st) ts
     | _ => langAt st ts
